@@ -29,14 +29,29 @@ variable {M N R E : Type} [DecidableEq N] [MemoLike M N R]
 
 /-! ### `iter` -/
 
-theorem iter_zero (g : Graph N) (d : N → Bool) (f : Nat → N → List R → Except E R) (s : WState M N) :
+theorem iter_zero (g : Graph N) (d : N → Bool) (f : List N → N → List R → Except E R) (s : WState M N) :
     iter g d f 0 s = .run s := rfl
 
-theorem iter_succ (g : Graph N) (d : N → Bool) (f : Nat → N → List R → Except E R) (k : Nat) (s : WState M N) :
+theorem step_nil (g : Graph N) (d : N → Bool) (f : List N → N → List R → Except E R) (s : WState M N)
+    (h : s.stack = []) : step g d f s = .run s := by
+  unfold step; rw [h]
+
+theorem iter_nil (g : Graph N) (d : N → Bool) (f : List N → N → List R → Except E R) (k : Nat) (s : WState M N)
+    (h : s.stack = []) : iter g d f k s = .run s := by
+  cases k with
+  | zero => rfl
+  | succ k => unfold iter; rw [h]
+
+theorem iter_succ (g : Graph N) (d : N → Bool) (f : List N → N → List R → Except E R) (k : Nat) (s : WState M N) :
     iter g d f (k + 1) s =
       match step g d f s with
       | .run s' => iter g d f k s'
-      | .fail e s' => .fail e s' := rfl
+      | .fail e s' => .fail e s' := by
+  cases h : s.stack with
+  | nil =>
+    rw [step_nil g d f s h, iter_nil g d f _ s h]
+    exact (iter_nil g d f k s h).symm
+  | cons a t => rw [iter]; rw [h]; cases step g d f s <;> rfl
 
 /-- continuation of a run -/
 def Res.bind (r : Res E M N) (k : WState M N → Res E M N) : Res E M N :=
@@ -44,7 +59,7 @@ def Res.bind (r : Res E M N) (k : WState M N → Res E M N) : Res E M N :=
   | .run s => k s
   | .fail e s => .fail e s
 
-theorem iter_add (g : Graph N) (d : N → Bool) (f : Nat → N → List R → Except E R) (a b : Nat) (s : WState M N) :
+theorem iter_add (g : Graph N) (d : N → Bool) (f : List N → N → List R → Except E R) (a b : Nat) (s : WState M N) :
     iter g d f (a + b) s = (iter g d f a s).bind (iter g d f b) := by
   induction a generalizing s with
   | zero => simp [iter, Res.bind]
@@ -54,34 +69,24 @@ theorem iter_add (g : Graph N) (d : N → Bool) (f : Nat → N → List R → Ex
     | run s' => simp only [ih]
     | fail e s' => simp [Res.bind]
 
-theorem iter_run_add {g : Graph N} {d : N → Bool} {f : Nat → N → List R → Except E R} {a : Nat}
+theorem iter_run_add {g : Graph N} {d : N → Bool} {f : List N → N → List R → Except E R} {a : Nat}
     {s s' : WState M N} (h : iter g d f a s = .run s') (b : Nat) :
     iter g d f (a + b) s = iter g d f b s' := by
   rw [iter_add, h]; rfl
 
-theorem iter_fail_add {g : Graph N} {d : N → Bool} {f : Nat → N → List R → Except E R} {a : Nat}
+theorem iter_fail_add {g : Graph N} {d : N → Bool} {f : List N → N → List R → Except E R} {a : Nat}
     {s s' : WState M N} {e : Err E} (h : iter g d f a s = .fail e s') (b : Nat) :
     iter g d f (a + b) s = .fail e s' := by
   rw [iter_add, h]; rfl
 
-theorem step_nil (g : Graph N) (d : N → Bool) (f : Nat → N → List R → Except E R) (s : WState M N)
-    (h : s.stack = []) : step g d f s = .run s := by
-  unfold step; rw [h]
-
-theorem iter_nil (g : Graph N) (d : N → Bool) (f : Nat → N → List R → Except E R) (k : Nat) (s : WState M N)
-    (h : s.stack = []) : iter g d f k s = .run s := by
-  induction k with
-  | zero => rfl
-  | succ k ih => rw [iter_succ, step_nil g d f s h]; exact ih
-
 /-- once finished (or failed), more fuel changes nothing -/
-theorem iter_mono_run {g : Graph N} {d : N → Bool} {f : Nat → N → List R → Except E R} {a : Nat}
+theorem iter_mono_run {g : Graph N} {d : N → Bool} {f : List N → N → List R → Except E R} {a : Nat}
     {s s' : WState M N} (h : iter g d f a s = .run s') (hs : s'.stack = []) (b : Nat) (hb : a ≤ b) :
     iter g d f b s = .run s' := by
   obtain ⟨c, rfl⟩ := Nat.exists_eq_add_of_le hb
   rw [iter_run_add h, iter_nil g d f c s' hs]
 
-theorem iter_mono_fail {g : Graph N} {d : N → Bool} {f : Nat → N → List R → Except E R} {a : Nat}
+theorem iter_mono_fail {g : Graph N} {d : N → Bool} {f : List N → N → List R → Except E R} {a : Nat}
     {s s' : WState M N} {e : Err E} (h : iter g d f a s = .fail e s') (b : Nat) (hb : a ≤ b) :
     iter g d f b s = .fail e s' := by
   obtain ⟨c, rfl⟩ := Nat.exists_eq_add_of_le hb
